@@ -212,7 +212,7 @@ def phases(tier):
   big = tier == 'thorough'
   return [
       {'name': 'validate', 'kind': 'hyp', 'strategy': lambda: cases(tier),
-       'run': check_case, 'examples': int((10000 if big else 700) * k)},
+       'run': check_case, 'examples': int((40000 if big else 700) * k)},
       {'name': 'metric_laws', 'kind': 'hyp', 'strategy': array_pairs,
        'run': check_metric_laws, 'examples': int((100000 if big else 4000) * k)},
   ]
